@@ -54,7 +54,7 @@ theorem buildGraph_fold_lookup (W k : Nat) (rows : List (Nat × List UInt8)) :
     ∀ (acc : Graph × Colours) (f : Nat),
       Assoc.lookup (rows.foldl (fun (acc : Graph × Colours) kv =>
         let (es, cs) := rowGraph W k kv.1 kv.2
-        (es.foldl (fun g e => addEdge g e.1 e.2) acc.1, cs.foldl (fun c e => addColour c e.1 e.2) acc.2))
+        (es.foldl (fun g e => addEdgeOnce g e.1 e.2) acc.1, cs.foldl (fun c e => addColour c e.1 e.2) acc.2))
         acc).2 f =
       (Assoc.lookup acc.2 f).or
         (Assoc.lookup (rows.flatMap (fun kv => (rowGraph W k kv.1 kv.2).2)) f) := by
